@@ -1,6 +1,7 @@
 import PxProofs.ForwardEmit
 import PxProofs.ForwardSem
 import PxProofs.ForwardLex
+import PxProofs.ForwardConn
 /-!
 # C02 — the forwarded HTTP request is semantically identical to the client's
 
@@ -127,7 +128,7 @@ RFC 7230 rendering of `fwdImpl true cfg r`, and that request is semantically equ
 `fwdSpec cfg r` (same method, origin-form of the same target, same version, the same fields minus
 Proxy-Authorization / Proxy-Connection / disabled ones plus Via — appended to a client Via —,
 byte-identical decoded body). -/
-theorem C02_first (cfg : Cfg) (hc : CfgOk cfg) (r : Req) (hwf : r.WF) (habs : r.isAbsolute = true)
+theorem C02_first_request (cfg : Cfg) (hc : CfgOk cfg) (r : Req) (hwf : r.WF) (habs : r.isAbsolute = true)
     (hlen : LenReadable r) (segs : List Bytes) (hs : segs.flatten = render r) :
     forwardFirst cfg segs = .ok (render (fwdImpl true cfg r)) ∧
       (fwdImpl true cfg r).semEq (fwdSpec cfg r) := by
@@ -142,7 +143,7 @@ for the code as it is: follow-up requests get no Via field (finding D10v,
 once, as the rendering of a request semantically equal to the specification *without* the Via
 clause (`fwdSpecWith false`): same method, origin-form target, version, fields minus the
 proxy-only and disabled ones, decoded body.  Missing for the full statement: Via on follow-ups. -/
-theorem C02_later_partial (cfg : Cfg) (hc : CfgOk cfg) (r : Req) (hwf : r.WF) (habs : r.isAbsolute = true)
+theorem C02_later_request_partial (cfg : Cfg) (hc : CfgOk cfg) (r : Req) (hwf : r.WF) (habs : r.isAbsolute = true)
     (hlen : LenReadable r) (segs : List Bytes) (hs : segs.flatten = render r) :
     forwardLater cfg segs = .ok (render (fwdImpl false cfg r)) ∧
       (fwdImpl false cfg r).semEq (fwdSpecWith false cfg r) := by
@@ -153,10 +154,11 @@ theorem C02_later_partial (cfg : Cfg) (hc : CfgOk cfg) (r : Req) (hwf : r.WF) (h
 /-- **D10v witness.**  `GET http://example.com/2` sent as a follow-up request is forwarded, and what
 is forwarded is not semantically the specified request: the Via field is missing. -/
 theorem C02_later_witness_noVia :
-    forwardLater {} [render exGet] = .ok (render (fwdImpl false {} exGet)) ∧
+    (Conn.feed {} (.later none) [render exGet]).1 = [[.built (render (fwdImpl false {} exGet))]] ∧
+      forwardLater {} [render exGet] = .ok (render (fwdImpl false {} exGet)) ∧
       ¬ (fwdImpl false {} exGet).semEq (fwdSpec {} exGet) ∧
       (fwdImpl false {} exGet).fields.all (fun f => !nameIs viaLower f) = true := by
-  refine ⟨(C02_later_partial {} (by decide +kernel) exGet (by decide +kernel) rfl
+  refine ⟨by decide +kernel, (C02_later_request_partial {} (by decide +kernel) exGet (by decide +kernel) rfl
     (by unfold LenReadable; decide +kernel) [render exGet] (by simp)).1, by decide +kernel, by decide +kernel⟩
 
 /-! ## header fields -/
@@ -174,7 +176,7 @@ theorem C02_headers (first : Bool) (cfg : Cfg) (p : Parser) (hi : PInv p) :
 /-- **C02 (no credentials).**  For EVERY input — well-formed or not, any segmentation, first or later
 request: whenever something is forwarded, it has the shape `line CRLF (name ": " value CRLF)* CRLF
 payload` and no field name in it is Proxy-Authorization or Proxy-Connection in any casing. -/
-theorem C02_no_credentials (first : Bool) (cfg : Cfg) (hc : CfgOk cfg) (segs : List Bytes) (out : Bytes)
+theorem C02_no_credentials_request (first : Bool) (cfg : Cfg) (hc : CfgOk cfg) (segs : List Bytes) (out : Bytes)
     (h : (if first then forwardFirst cfg segs else forwardLater cfg segs) = .ok out) :
     ∃ line hd payload, out = line ++ CRLF ++ (renderDict hd ++ CRLF ++ payload) ∧
       ∀ e ∈ hd, lower e.1 ≠ lower cfg.proxyAuthorization ∧ lower e.1 ≠ lower cfg.proxyConnection := by
@@ -352,5 +354,168 @@ theorem C02_content_length_repeated :
     (fwdImpl true {} exCl).fields.map (fun f => (f.name, f.value)) =
         [(clName, [48, 48, 53]), (viaName, viaValue {}), (nCL, [53])] ∧
       clValues (fwdImpl true {} exCl) = [some 5, some 5] := by decide +kernel
+
+/-! ## the connection, write by write (`Conn.step` / `Conn.feed`: what `harness/c02.py` ties to the code)
+
+Since /repo 84c574d a client write may carry several requests; `Conn.feed` models every write of a
+connection (first request, leftover handed to `on_client_data`, the `_handle_pipeline_data` loop,
+CONNECT / upgrade relay, teardown on an exception).  The theorems below are about requests that
+arrive in writes of their own (any number of non-empty pieces per request, the next request after
+the previous one's last byte); requests *sharing* a write are covered by the correspondence runs
+and the oracle only. -/
+
+theorem Conn.feed_append (cfg : Cfg) (c : Conn) (a b : List Bytes) :
+    Conn.feed cfg c (a ++ b) =
+      ((Conn.feed cfg c a).1 ++ (Conn.feed cfg (Conn.feed cfg c a).2 b).1, (Conn.feed cfg (Conn.feed cfg c a).2 b).2) := by
+  induction a generalizing c with
+  | nil => simp [Conn.feed]
+  | cons x xs ih => simp [Conn.feed, ih]
+
+theorem quietThen_flatten (n : Nat) (out : List Emit) : (quietThen n out).flatten = out := by
+  simp [quietThen, List.flatten_replicate_nil]
+
+def upgradeLower : Bytes := [117, 112, 103, 114, 97, 100, 101]      -- "upgrade"
+
+/-- the request carries no Upgrade field (a follow-up with Connection + Upgrade switches the
+    connection to relaying, `Conn.relay`) -/
+def Req.noUpgrade (r : Req) : Prop := r.fields.any (nameIs upgradeLower) = false
+
+instance (r : Req) : Decidable r.noUpgrade := by unfold Req.noUpgrade; infer_instance
+
+example : exGet.noUpgrade := by decide
+
+theorem not_upgrade (cfg : Cfg) {r : Req} (hn : r.noUpgrade) {P : Parser}
+    (hh : P.headers.getD [] = entries r.fields) : isUpgrade (treatLater cfg P) = false := by
+  have hlow : lower (b "Upgrade") = upgradeLower := by rw [b_eval']; decide
+  have hno : hasHeader (treatLater cfg P) (b "Upgrade") = false := by
+    rw [treatLater_eq]
+    unfold hasHeader
+    rw [hlow]
+    cases hP : P.headers with
+    | none => rfl
+    | some h =>
+      simp only [Option.map_some]
+      rw [hP] at hh
+      simp only [Option.getD_some] at hh
+      rw [List.any_eq_false]
+      intro x hx
+      have hm := (mem_keptEntries hx).1
+      rw [hh] at hm
+      simp only [entries, List.mem_map] at hm
+      obtain ⟨f, hf, rfl⟩ := hm
+      have := List.any_eq_false.1 hn f hf
+      simpa [nameIs] using this
+  simp [isUpgrade, hno]
+
+/-- a well-formed request in writes of its own, first or later on the connection -/
+theorem conn_request (first : Bool) (cfg : Cfg) (hc : CfgOk cfg) (r : Req) (hwf : r.WF) (habs : r.isAbsolute = true)
+    (segs : List Bytes) (hne : ∀ s ∈ segs, s ≠ []) (hs : segs.flatten = render r) :
+    ∃ c, Conn.feed cfg (if first then Conn.start else .later none) segs =
+        (quietThen segs.length [.built (render (fwdImpl first cfg r))], c) ∧
+      (c = .later none ∨ (first = false ∧ c = .relay)) ∧ (r.noUpgrade → c = .later none) := by
+  obtain ⟨P, hP, hPc, hPb, hef, hel, hhd, _⟩ := wf_emit cfg hc r hwf habs
+  obtain ⟨rest, hfeed, hrest⟩ := feed_segmented hP hPc hPb segs hs
+  have hr : rest = [] :=
+    flatten_nil_of_nonempty (fun s hs' => hne s (feedUntilComplete_rest_mem hfeed s hs')) hrest
+  subst hr
+  cases first with
+  | true =>
+    refine ⟨.later none, ?_, .inl rfl, fun _ => rfl⟩
+    simp only [if_true, Conn.start]
+    exact first_bridge cfg hPc hPb hef segs _ (by simp [init]) hfeed
+  | false =>
+    simp only [Bool.false_eq_true, if_false]
+    have hb := later_bridge cfg hPc hPb hel segs hne none (by simp [init]) (by simpa using hfeed)
+    refine ⟨_, hb, ?_, ?_⟩
+    · by_cases hu : isUpgrade (treatLater cfg P) = true
+      · simp [hu]
+      · simp [hu]
+    · intro hn
+      simp [not_upgrade cfg hn hhd]
+
+/-- **C02 (first request).**  On a fresh connection, for every well-formed absolute-form HTTP/1.x
+request `r` (see `C02_first_request` for the quantifier) cut into any non-empty pieces: no write
+before the last one makes the proxy send anything to the origin; the last write makes it send
+exactly the RFC 7230 rendering of `fwdImpl true cfg r`, which is semantically equal to
+`fwdSpec cfg r`; the connection then waits for follow-up requests. -/
+theorem C02_first (cfg : Cfg) (hc : CfgOk cfg) (r : Req) (hwf : r.WF) (habs : r.isAbsolute = true)
+    (hlen : LenReadable r) (segs : List Bytes) (hne : ∀ s ∈ segs, s ≠ []) (hs : segs.flatten = render r) :
+    Conn.feed cfg Conn.start segs =
+        (quietThen segs.length [.built (render (fwdImpl true cfg r))], .later none) ∧
+      (fwdImpl true cfg r).semEq (fwdSpec cfg r) := by
+  obtain ⟨c, h, hc', _⟩ := conn_request true cfg hc r hwf habs segs hne hs
+  simp only [if_true] at h
+  rcases hc' with rfl | ⟨hf, _⟩
+  · exact ⟨h, semEq_impl_spec true cfg hc r hwf hlen⟩
+  · cases hf
+
+/-- **C02 (later requests), partial.**  Full statement: as `C02_first`, from the state a connection is
+in after its earlier requests (`Conn.later none`), against `fwdSpec`.  It does not hold for the
+code as it is — no Via on follow-ups, finding D10v (`C02_later_witness_noVia`).  Proved: everything
+else (`fwdSpecWith false`).  Afterwards the connection waits for the next request, unless `r` was an
+upgrade request (then client bytes are relayed). -/
+theorem C02_later_partial (cfg : Cfg) (hc : CfgOk cfg) (r : Req) (hwf : r.WF) (habs : r.isAbsolute = true)
+    (hlen : LenReadable r) (segs : List Bytes) (hne : ∀ s ∈ segs, s ≠ []) (hs : segs.flatten = render r) :
+    (∃ c, Conn.feed cfg (.later none) segs =
+        (quietThen segs.length [.built (render (fwdImpl false cfg r))], c) ∧
+        (c = .later none ∨ c = .relay) ∧ (r.noUpgrade → c = .later none)) ∧
+      (fwdImpl false cfg r).semEq (fwdSpecWith false cfg r) := by
+  obtain ⟨c, h, hc', hn⟩ := conn_request false cfg hc r hwf habs segs hne hs
+  simp only [Bool.false_eq_true, if_false] at h
+  refine ⟨⟨c, h, ?_, hn⟩, semEq_impl_spec false cfg hc r hwf hlen⟩
+  rcases hc' with h1 | ⟨_, h2⟩
+  · exact .inl h1
+  · exact .inr h2
+
+/-- **C02 (whole connection, sequential requests).**  A first request and any number of follow-up
+requests (none of them an upgrade request), each well formed and delivered in non-empty pieces of
+its own: the origin receives, in order, exactly one message per request — `fwdImpl true` of the
+first, `fwdImpl false` of each later one — and nothing else. -/
+theorem C02_connection (cfg : Cfg) (hc : CfgOk cfg) (r0 : Req) (segs0 : List Bytes)
+    (h0 : r0.WF ∧ r0.isAbsolute = true ∧ (∀ s ∈ segs0, s ≠ []) ∧ segs0.flatten = render r0)
+    (later : List (Req × List Bytes))
+    (hl : ∀ x ∈ later, x.1.WF ∧ x.1.isAbsolute = true ∧ x.1.noUpgrade ∧ (∀ s ∈ x.2, s ≠ []) ∧ x.2.flatten = render x.1) :
+    ((Conn.feed cfg Conn.start (segs0 ++ (later.map (·.2)).flatten)).1.flatten =
+        .built (render (fwdImpl true cfg r0)) :: later.map (fun x => .built (render (fwdImpl false cfg x.1)))) ∧
+      (Conn.feed cfg Conn.start (segs0 ++ (later.map (·.2)).flatten)).2 = .later none := by
+  obtain ⟨hw0, ha0, hn0, hs0⟩ := h0
+  obtain ⟨c, hfirst, hc', _⟩ := conn_request true cfg hc r0 hw0 ha0 segs0 hn0 hs0
+  simp only [if_true] at hfirst
+  have hcl : c = .later none := by
+    rcases hc' with h | ⟨hf, _⟩
+    · exact h
+    · cases hf
+  subst hcl
+  have hrest : ∀ (l : List (Req × List Bytes)),
+      (∀ x ∈ l, x.1.WF ∧ x.1.isAbsolute = true ∧ x.1.noUpgrade ∧ (∀ s ∈ x.2, s ≠ []) ∧ x.2.flatten = render x.1) →
+      (Conn.feed cfg (.later none) (l.map (·.2)).flatten).1.flatten =
+          l.map (fun x => Emit.built (render (fwdImpl false cfg x.1))) ∧
+        (Conn.feed cfg (.later none) (l.map (·.2)).flatten).2 = .later none := by
+    intro l
+    induction l with
+    | nil => intro _; simp [Conn.feed]
+    | cons x xs ih =>
+      intro hx
+      obtain ⟨hw, ha, hnu, hn, hs⟩ := hx x (by simp)
+      obtain ⟨c, hreq, _, hnup⟩ := conn_request false cfg hc x.1 hw ha x.2 hn hs
+      simp only [Bool.false_eq_true, if_false] at hreq
+      have hcc := hnup hnu
+      subst hcc
+      have ih' := ih (fun y hy => hx y (List.mem_cons_of_mem _ hy))
+      simp only [List.map_cons, List.flatten_cons, Conn.feed_append, hreq, List.flatten_append,
+        quietThen_flatten, ih'.1, ih'.2, List.singleton_append, and_self]
+  have := hrest later hl
+  simp only [Conn.feed_append, hfirst, List.flatten_append, quietThen_flatten, this.1, this.2,
+    List.singleton_append, and_self]
+
+/-- **C02 (no credentials), every input.**  For EVERY sequence of client writes — well-formed or not,
+any segmentation, any number of requests per write, any position: every request the proxy
+re-serialises for the origin has the shape `line CRLF (name ": " value CRLF)* CRLF payload` and no
+field name in it is Proxy-Authorization or Proxy-Connection in any casing.  (Bytes relayed verbatim
+after CONNECT or after an upgrade request are the client's own stream, not requests of the proxy's
+making.) -/
+theorem C02_no_credentials (cfg : Cfg) (hc : CfgOk cfg) (writes : List Bytes) :
+    ∀ es ∈ (Conn.feed cfg Conn.start writes).1, ∀ e ∈ es, Clean cfg e :=
+  feed_clean cfg hc writes Conn.start (pinv_init _)
 
 end Px.Forward
